@@ -146,13 +146,39 @@ def startTrailing (p : P) : P :=
   | some pd => { p with pending := some { pd with trailingIdx := some (pd.trailingIdx.getD pd.rawVals.length) } }
   | none => p
 
+/-- the arg members of a group through nested groups (`unroll_args_in_group`; fuel-bounded, an unknown group
+contributes nothing - the validator's own model of the function keeps the `expect`) -/
+def groupArgs (c : Cmd) : Nat → List Id → List Id → List Id
+  | _, [], acc => acc
+  | 0, _ :: _, acc => acc
+  | fuel+1, g :: gs, acc =>
+    match c.findGroup g with
+    | none => groupArgs c fuel gs acc
+    | some grp =>
+      let st := grp.args.foldl (fun (st : List Id × List Id) n =>
+          if st.1.contains n then st
+          else if (c.find n).isSome then (st.1 ++ [n], st.2)
+          else (st.1, n :: st.2)) (acc, [])
+      groupArgs c fuel (st.2 ++ gs) st.1
+
+/-- a group none of whose members is matched any more is dropped (after the `fix:` for finding F22: an overridden
+arg used to leave its groups' entries behind, and the validator took those groups for present) -/
+def dropEmptyGroups (c : Cmd) (id : Id) (m : ArgMap) : ArgMap :=
+  (c.groupsForArg id).foldl (fun acc g =>
+    if (groupArgs c (c.groups.length + c.args.length + 1) [g] []).any (fun a => acc.contains a) then acc
+    else ArgMap.remove g acc) m
+
+/-- `remove_overridden` -/
+def removeOverridden (c : Cmd) (m : ArgMap) (o : Id) : ArgMap :=
+  if m.contains o then dropEmptyGroups c o (ArgMap.remove o m) else m
+
 /-- `remove_overrides` -/
 def removeOverrides (c : Cmd) (a : Arg) (m : ArgMap) : ArgMap :=
-  let m1 := a.overrides.foldl (fun acc o => ArgMap.remove o acc) m
+  let m1 := a.overrides.foldl (removeOverridden c) m
   let transitive := m1.ids.filter fun id => match c.find id with
     | some ov => ov.overrides.contains a.id
     | none => false
-  transitive.foldl (fun acc o => ArgMap.remove o acc) m1
+  transitive.foldl (removeOverridden c) m1
 
 /-- `ArgMatcher::start_custom_arg` / `start_custom_group` -/
 def matcherStart (m : ArgMap) (id : Id) (fresh : MatchedArg) (source : Source) : ArgMap :=
